@@ -288,6 +288,9 @@ func caseHG(c *hlib.Ctx) {
 	gn, _ := gen(rawU(u), rawU(u2))
 	s := mat.SampleSource(gn, unit(c), dest)
 	alpha := u2 * math.Pi * 2
+	if !finite(s) {
+		c.Stat("hg.sample-not-finite", 1)
+	}
 	c.Emit(fmt.Sprintf("c19 hgsamp %s %s %s %s %s %s", consts(), hx(g0), hv(dest), hx(u), hx(math.Cos(alpha)), hx(math.Sin(alpha))), ov(s))
 	c.Emit(fmt.Sprintf("c19 hgnum %s %s", consts(), hx(g0)), hx(render3d.VerifHGNumericalG(mat)))
 	g := render3d.VerifHGNumericalG(mat)
@@ -315,24 +318,70 @@ func caseHG(c *hlib.Ctx) {
 // ---------------------------------------------------------------------------
 // JoinedMaterial (mixtures), with marker lobes
 
+// Marker directions the harness passes to the joined material: a lobe answers with its
+// own density / marker sample only when it is called with the arguments the property
+// requires (SourceDensity(n, s, d) for source sampling; for destination sampling either the
+// lobe's own DestDensity(n, s, d) / SampleDest(n, s) when it is an AsymMaterial, or the generic
+// wrapper SourceDensity(n, -d, -s) / -SampleSource(n, -s)).
+var (
+	jN = model3d.XYZ(0, 0, 1)
+	jS = model3d.XYZ(0.6, 0, -0.8)
+	jD = model3d.XYZ(0, 0.8, 0.6)
+)
+
 type stubMat struct {
-	id   float64
-	dens float64
+	id    float64
+	dens  float64 // source density
+	ddens float64 // destination density
 }
 
 func (s *stubMat) BSDF(normal, source, dest V) render3d.Color { return V{} }
 func (s *stubMat) SampleSource(gen *rand.Rand, normal, dest V) V {
-	return model3d.XYZ(s.id, 0, 0)
+	if normal == jN && (dest == jD || dest == jS.Scale(-1)) {
+		return model3d.XYZ(s.id, 0, 0)
+	}
+	return model3d.XYZ(9999, 0, 0)
 }
-func (s *stubMat) SourceDensity(normal, source, dest V) float64 { return s.dens }
-func (s *stubMat) Emission() render3d.Color                     { return V{} }
-func (s *stubMat) Ambient() render3d.Color                      { return V{} }
+func (s *stubMat) SourceDensity(normal, source, dest V) float64 {
+	if normal == jN && source == jS && dest == jD {
+		return s.dens
+	}
+	if normal == jN && source == jD.Scale(-1) && dest == jS.Scale(-1) {
+		return s.ddens
+	}
+	return 9999
+}
+func (s *stubMat) Emission() render3d.Color { return V{} }
+func (s *stubMat) Ambient() render3d.Color  { return V{} }
+
+// stubAsym is a lobe with its own destination sampler and density.
+type stubAsym struct{ stubMat }
+
+func (s *stubAsym) SampleDest(gen *rand.Rand, normal, source V) V {
+	if normal == jN && source == jS {
+		return model3d.XYZ(-s.id, 0, 0)
+	}
+	return model3d.XYZ(9999, 0, 0)
+}
+func (s *stubAsym) DestDensity(normal, source, dest V) float64 {
+	if normal == jN && source == jS && dest == jD {
+		return s.ddens
+	}
+	return 9999
+}
+func (s *stubAsym) SourceDensity(normal, source, dest V) float64 {
+	if normal == jN && source == jS && dest == jD {
+		return s.dens
+	}
+	return 9999 // an AsymMaterial must not be asked through the generic wrapper
+}
 
 func caseJoinedMat(c *hlib.Ctx) {
 	k := 1 + c.Rng.Intn(5)
 	exact := c.Rng.Intn(2) == 0
 	probs := make([]float64, k)
 	dens := make([]float64, k)
+	ddens := make([]float64, k)
 	mats := make([]render3d.Material, k)
 	var u float64
 	if exact {
@@ -346,6 +395,7 @@ func caseJoinedMat(c *hlib.Ctx) {
 			probs[i] = float64(p) / 16
 			left -= p
 			dens[i] = float64(c.Rng.Intn(65)) / 8
+			ddens[i] = float64(c.Rng.Intn(65)) / 8
 		}
 		u = float64(c.Rng.Intn(64)) / 64
 	} else {
@@ -357,6 +407,7 @@ func caseJoinedMat(c *hlib.Ctx) {
 			}
 			sum += probs[i]
 			dens[i] = c.Rng.Float64() * 8
+			ddens[i] = c.Rng.Float64() * 8
 		}
 		if sum == 0 {
 			probs[0], sum = 1, 1
@@ -367,15 +418,21 @@ func caseJoinedMat(c *hlib.Ctx) {
 		u = uniform(c)
 	}
 	for i := range mats {
-		mats[i] = &stubMat{id: float64(i + 1), dens: dens[i]}
+		sm := stubMat{id: float64(i + 1), dens: dens[i], ddens: ddens[i]}
+		if c.Rng.Intn(3) == 0 {
+			mats[i] = &stubAsym{sm}
+			c.Stat("joinedmat.asym-lobe", 1)
+		} else {
+			mats[i] = &sm
+		}
 	}
 	jm := &render3d.JoinedMaterial{Materials: mats, Probs: probs}
 	g1, _ := gen(rawU(u))
-	idx := int(jm.SampleSource(g1, V{}, V{}).X) - 1
+	idx := int(jm.SampleSource(g1, jN, jD).X) - 1
 	g2, _ := gen(rawU(u))
-	idx2 := int(-jm.SampleDest(g2, V{}, V{}).X) - 1
-	sd := jm.SourceDensity(V{}, V{}, V{})
-	dd := jm.DestDensity(V{}, V{}, V{})
+	idx2 := int(-jm.SampleDest(g2, jN, jS).X) - 1
+	sd := jm.SourceDensity(jN, jS, jD)
+	dd := jm.DestDensity(jN, jS, jD)
 	if exact {
 		f := func(xs []float64) string {
 			ss := make([]string, len(xs))
@@ -385,18 +442,11 @@ func caseJoinedMat(c *hlib.Ctx) {
 			return strings.Join(ss, " ")
 		}
 		c.Emit(fmt.Sprintf("c19 jselQ %d %s %s", k, f(probs), hlib.RatStr(u)), fmt.Sprintf("%d %d", idx, idx2))
-		c.Emit(fmt.Sprintf("c19 jdensQ %d %s %s", k, f(probs), f(dens)), hlib.RatStr(sd)+" "+hlib.RatStr(dd))
+		c.Emit(fmt.Sprintf("c19 jdensQ %d %s %s %s", k, f(probs), f(dens), f(ddens)), hlib.RatStr(sd)+" "+hlib.RatStr(dd))
 		c.Stat("joinedmat.exact", 1)
 	} else {
-		f := func(xs []float64) string {
-			ss := make([]string, len(xs))
-			for i, x := range xs {
-				ss[i] = hx(x)
-			}
-			return strings.Join(ss, " ")
-		}
-		c.Emit(fmt.Sprintf("c19 jsel %d %s %s", k, f(probs), hx(u)), fmt.Sprintf("%d %d", idx, idx2))
-		c.Emit(fmt.Sprintf("c19 jdens %d %s %s", k, f(probs), f(dens)), hx(sd)+" "+hx(dd))
+		c.Emit(fmt.Sprintf("c19 jsel %d %s %s", k, hxs(probs), hx(u)), fmt.Sprintf("%d %d", idx, idx2))
+		c.Emit(fmt.Sprintf("c19 jdens %d %s %s %s", k, hxs(probs), hxs(dens), hxs(ddens)), hx(sd)+" "+hx(dd))
 	}
 	c.Stat(fmt.Sprintf("joinedmat.lobes=%d", k), 1)
 }
